@@ -540,7 +540,7 @@ def check_sequence(ctx, FB, exp, rows):
                     res = Mini(FB, "wow_world_messages").call_fn(fns[field]["path"], [u])
                     want = args[0] if len(args) == 1 else tuple(args)
                     if not (isinstance(res, tuple) and res[0] == "Some" and equalish(res[1], want)):
-                        ctx.violate("um.sequence", f"{exp}|{kind}|{field}{otag}", f"{exp} Update{kind}: after setting every typed field{' (history' + otag.replace('|', ' ') + ')' if otag else ' once'}, {field}() no longer returns "
+                        ctx.violate("um.sequence", f"{exp}|{kind}|{field}{otag}|" + ("overwritten-by:" + ",".join(sorted(culprits)) if culprits else "wrong-value"), f"{exp} Update{kind}: after setting every typed field{' (history' + otag.replace('|', ' ') + ')' if otag else ' once'}, {field}() no longer returns "
                                     f"the value last given to set_{field} ({'overwritten by ' + ', '.join('set_' + c for c in culprits[:3]) if culprits else 'returns ' + show(res)})", fns[field]["file"], fns[field]["line"])
                 if not otag:
                     # the fully populated object on the wire (every simple field present and dirty, so every block position is exercised)
